@@ -263,97 +263,119 @@ def run(repo, rep, tier):
                 return True
         return False
 
-    for n in walk_no_nested(cv.node):
-        if not isinstance(n, ast.Return):
-            continue
-        r4.sites += 1
-        v = n.value
-        fs = facts.get(n, ((), ()))[0]
-        kind = None
-        if isinstance(v, ast.Name) and v.id != vparam:
-            # a local with exactly one assignment stands for that value
-            defs = [x.value for x in walk_no_nested(cv.node)
-                    if isinstance(x, ast.Assign) and len(x.targets) == 1 and
-                    isinstance(x.targets[0], ast.Name) and
-                    x.targets[0].id == v.id]
-            if len(defs) == 1:
-                v = defs[0]
+    from ..paths import return_paths
+    tparam = cv.params[1]
+    rpaths = return_paths(cv, inline=True)
+    if rpaths is None:
+        raise AnalysisError('cimvalue: too many paths')
+
+    def is_type_lookup(e):
+        return isinstance(e, ast.Call) and \
+            dotted(e.func) == 'type_from_name' and e.args and \
+            norm(e.args[0]) == tparam
+
+    def classify(pth):
+        """kind of the value returned on this path, or None; 'FINDING:...'
+        for a pass-through conversion"""
+        # the type parameter itself stays symbolic (it may have been
+        # replaced by the inferred type cimtype(value))
+        pth.env = {k: d for k, d in pth.env.items() if k != tparam}
+        v = pth.resolve(pth.value) if pth.value is not None else None
+        fs = [(pth.resolve(t), pol) for t, pol in pth.facts]
+        fixed = any(
+            p2 and isinstance(t2, ast.Compare) and
+            norm(t2.left) == tparam and
+            isinstance(t2.ops[0], (ast.Eq, ast.In)) and
+            isinstance(t2.comparators[0], (ast.Constant, ast.Tuple))
+            for t2, p2 in fs)
         if v is None or (isinstance(v, ast.Constant) and v.value is None):
-            kind = 'None'
-        elif isinstance(v, ast.Name) and v.id == vparam:
+            return 'None'
+        if isinstance(v, ast.Name) and v.id == vparam:
             for t, pol in fs:
                 if pol and isinstance(t, ast.Call) and \
                         dotted(t.func) == 'isinstance' and \
                         norm(t.args[0]) == vparam:
                     tt = t.args[1]
-                    names = [norm(e) for e in
-                             (tt.elts if isinstance(tt, ast.Tuple) else [tt])]
-                    # the isinstance type has to be tied to the *requested*
-                    # type: a local bound to type_from_name(type), or repo
-                    # classes inside a branch that fixed `type == <const>`
-                    tparam = cv.params[1]
-                    fixed = any(
-                        p2 and isinstance(t2, ast.Compare) and
-                        norm(t2.left) == tparam and
-                        isinstance(t2.ops[0], (ast.Eq, ast.In)) and
-                        isinstance(t2.comparators[0],
-                                   (ast.Constant, ast.Tuple))
-                        for t2, p2 in fs)
-                    if all(_typed_name(repo, obj, cv, x, tparam, fixed)
-                           for x in names):
-                        kind = 'value under isinstance(%s)' % norm(tt)
+                    elts = tt.elts if isinstance(tt, ast.Tuple) else [tt]
+                    if all(is_type_lookup(x) or
+                           _typed_name(repo, obj, cv, norm(x), tparam, fixed)
+                           for x in elts):
+                        return 'value under isinstance(%s)' % norm(tt)
                 if pol and isinstance(t, ast.Compare) and \
                         norm(t) == '%s is None' % vparam:
-                    kind = 'None'
-        elif isinstance(v, ast.ListComp):
+                    return 'None'
+            return None
+        if isinstance(v, ast.ListComp):
             e = v.elt
             if isinstance(e, ast.Call) and dotted(e.func) == cv.name:
-                kind = 'recursion over items'
-        elif isinstance(v, ast.Call):
+                return 'recursion over items'
+            return None
+        if isinstance(v, ast.List) and not v.elts and \
+                isinstance(pth.value, ast.Name):
+            # a list filled by a loop of recursive calls
+            nm = pth.value.id
+            apps = [c for st in pth.effects
+                    if isinstance(st, (ast.For, ast.While))
+                    for c in ast.walk(st) if isinstance(c, ast.Call) and
+                    isinstance(c.func, ast.Attribute) and
+                    c.func.attr == 'append' and norm(c.func.value) == nm]
+            if apps and all(c.args and isinstance(c.args[0], ast.Call) and
+                            dotted(c.args[0].func) == cv.name for c in apps):
+                return 'recursion over items'
+            return None
+        if isinstance(v, ast.Call):
+            if is_type_lookup(v.func):
+                return 'constructor via type_from_name'
             fn = dotted(v.func)
             if fn == 'bool':
-                kind = 'bool()'
-            elif fn is not None and fn.endswith('.from_wbem_uri'):
-                kind = 'constructor ' + fn
-            elif fn is not None:
-                # a local bound to type_from_name(...) is a class
-                tgt = None
-                for x in walk_no_nested(cv.node):
-                    if isinstance(x, ast.Assign) and \
-                            any(dotted(t) == fn for t in x.targets) and \
-                            isinstance(x.value, ast.Call) and \
-                            dotted(x.value.func) == 'type_from_name':
-                        tgt = 'type_from_name'
-                if tgt:
-                    kind = 'constructor via type_from_name'
-                else:
-                    r = repo.resolve_import(obj, fn.split('.')[0])
-                    if r is not None and r[1] in r[0].classes:
-                        kind = 'constructor ' + fn
-                    elif r is not None and r[1] in r[0].functions:
-                        f = r[0].functions[r[1]]
-                        if returns_param_unchanged(f):
-                            kind = None
-                            rep.finding(
-                                r4, cv.qualname, norm(n), 'pass-through',
-                                OBJ, n.lineno,
-                                '%s() can return its argument unchanged, so '
-                                'cimvalue() returns a value that is not of '
-                                'the requested CIM type instead of raising '
-                                'TypeError (e.g. cimvalue(42, "string") == '
-                                '42)' % fn)
-                            r4.ob(False, 'cimvalue:' + norm(n))
-                            continue
-                        kind = 'conversion ' + fn
+                return 'bool()'
+            if fn is not None and fn.endswith('.from_wbem_uri'):
+                return 'constructor ' + fn
+            if fn is not None:
+                r = repo.resolve_import(obj, fn.split('.')[0])
+                if r is not None and r[1] in r[0].classes:
+                    return 'constructor ' + fn
+                if r is not None and r[1] in r[0].functions:
+                    f = r[0].functions[r[1]]
+                    if returns_param_unchanged(f):
+                        return 'FINDING:' + fn + '\0' + norm(v)
+                    return 'conversion ' + fn
+        return None
+
+    reported = set()
+    for pth in rpaths:
+        n = pth.ret_stmt
+        if n is None:
+            continue          # falls off the end: returns None
+        r4.sites += 1
+        kind = classify(pth)
+        conds = ' / '.join(('' if pol else 'not ') + norm(t, 30)
+                           for t, pol in pth.facts[-3:])
+        if kind is not None and kind.startswith('FINDING:'):
+            fn, callx = kind[8:].split('\0')
+            r4.ob(False, 'cimvalue:' + callx)
+            if ('pt', callx) not in reported:
+                reported.add(('pt', callx))
+                rep.finding(
+                    r4, cv.qualname, 'return ' + callx, 'pass-through',
+                    OBJ, n.lineno,
+                    '%s() can return its argument unchanged, so '
+                    'cimvalue() returns a value that is not of '
+                    'the requested CIM type instead of raising '
+                    'TypeError (e.g. cimvalue(42, "string") == '
+                    '42)' % fn)
+            continue
         ok = kind is not None
-        r4.ob(ok, 'cimvalue:' + norm(n), {'return': norm(n), 'kind': kind})
-        if not ok:
+        r4.ob(ok, 'cimvalue:%s|%s' % (norm(n), conds),
+              {'return': norm(n), 'kind': kind, 'path': conds})
+        if not ok and ('ut', norm(n)) not in reported:
+            reported.add(('ut', norm(n)))
             rep.finding(r4, cv.qualname, norm(n), 'untyped-return', OBJ,
-                        n.lineno, 'return value is neither a constructor '
-                        'call nor the value under an isinstance test for '
-                        'the requested type (type_from_name(type), or a '
-                        'class inside a branch that fixed type to a '
-                        'constant)')
+                        n.lineno, 'on the path [%s] the return value is '
+                        'neither a constructor call nor the value under an '
+                        'isinstance test for the requested type '
+                        '(type_from_name(type), or a class inside a branch '
+                        'that fixed type to a constant)' % conds)
 
     # ---------------- R5 ---------------------------------------------------
     dt = repo.cls(TYP, 'CIMDateTime')
